@@ -19,6 +19,7 @@ import Driver.C15
 import Driver.C16
 import Driver.C11
 import Driver.C14
+import Driver.C04
 
 open Driver
 
@@ -40,6 +41,7 @@ def dispatch (prop : String) (toks : List String) : String :=
   | "C16" => Driver.C16.handle toks
   | "C11" => Driver.C11.handle toks
   | "C14" => Driver.C14.handle toks
+  | "C04" => Driver.C04.handle toks
   | _ => "bad-prop"
 
 partial def loop (hin hout : IO.FS.Stream) : IO Unit := do
